@@ -259,8 +259,12 @@ func (n *node) newTransition(txs []module.Transaction, x *execCtx) module.Transi
 	}
 	bi := common.NewBlockInfo(n.height, blockTimestamp(n.height))
 	csi := common.NewConsensusInfo(nil, nil, nil)
-	return service.NewTransition(n.parent, nil, txl, bi, csi, true)
+	return service.NewTransition(n.parent, nil, txl, bi, csi, x == nil || !validateOnImport)
 }
+
+// validateOnImport: the block under test is executed as an importer does it (transactions are
+// pre-validated by the transition first) instead of as its proposer (already validated). Drawn per run.
+var validateOnImport bool
 
 func blockTimestamp(h int64) int64 { return 1_700_000_000_000_000 + h*2_000_000 }
 
